@@ -60,8 +60,23 @@ UnpackErrors(c) ==
 
 RoundTripErrors(c) == IF c.rt THEN {} ELSE {<<"round-trip-differs">>}
 
+\* the scratch buffer the crate hands out for a sized type holds exactly its packed form
+BufferErrors(c) ==
+    (IF c.buflen # c.plen THEN {<<"buffer-length", c.buflen, c.plen>>} ELSE {})
+    \cup (IF c.n > 0 /\ c.plen # c.n * c.item THEN {<<"array-packed-len", c.plen, c.n, c.item>>} ELSE {})
+
+\* an array of primitive items is its items' little-endian bytes one after the other
+ArrayUnpackErrors(c) ==
+    IF c.res = "panic" THEN {<<"unpack-panicked">>}
+    ELSE IF Len(c.buf) < c.plen
+    THEN (IF c.res # "err" THEN {<<"short-buffer-accepted", Len(c.buf), c.plen>>} ELSE {})
+    ELSE IF c.res # "ok" THEN {<<"valid-buffer-rejected", c.res>>}
+    ELSE IF c.flat # SubSeq(c.buf, 1, c.plen) THEN {<<"array-items", c.flat, SubSeq(c.buf, 1, c.plen)>>} ELSE {}
+
 CaseErrors(c) ==
     CASE c.op = "pack" -> PackErrors(c)
+      [] c.op = "buffer" -> BufferErrors(c)
+      [] c.op = "array_unpack" -> ArrayUnpackErrors(c)
       [] c.op = "unpack" -> UnpackErrors(c)
       [] c.op = "roundtrip" -> RoundTripErrors(c)
       [] OTHER -> {}
